@@ -229,11 +229,13 @@ Section Executor.
      snd (XRUN s q) ++ [snd (x_exec1 St cmd exec_plain kind (fst (XRUN s q)) c)]).
   Proof. exact (x_run_snoc St cmd exec_plain kind). Qed.
 
-  (* The FIRST WATCH of a key decides: WATCH records a key that is not yet watched with its present value,
-     never replaces or drops an entry, and an entry survives every command except UNWATCH (outside a
-     transaction) and EXEC / DISCARD (inside one) - later WATCHes of the same key included. *)
-  Theorem C05_x_first_watch_decides :
-    (forall ks s w k, In k ks -> x_has V k w = false -> In (k, read_key s k) (x_watch St V read_key s w ks)) /\
+  (* EVERY WATCH instant counts: WATCH records each key it names with its present value, never replaces
+     or drops an entry, and an entry survives every command except UNWATCH (outside a transaction) and
+     EXEC / DISCARD (inside one) - later WATCHes of the same key included.  With
+     C05_x_exec_all_or_nothing: EXEC is nil as soon as the value differs from what ANY WATCH of the key saw
+     (a change between two WATCHes, and a change after the last WATCH that restores the first value). *)
+  Theorem C05_x_every_watch_counts :
+    (forall ks s w k, In k ks -> In (k, read_key s k) (x_watch St V read_key s w ks)) /\
     (forall ks s w k v, In (k, v) w -> In (k, v) (x_watch St V read_key s w ks)) /\
     (forall (x : xstate St cmd V) c k v,
        (x_in _ _ _ x = false -> kind c <> KUnwatch) ->
@@ -302,7 +304,7 @@ Print Assumptions C05_x_queued_reply.
 Print Assumptions C05_x_exec_all_or_nothing.
 Print Assumptions C05_x_discard.
 Print Assumptions C05_x_run_consecutive.
-Print Assumptions C05_x_first_watch_decides.
+Print Assumptions C05_x_every_watch_counts.
 Print Assumptions C05_watch_iff_changed_strings.
 Print Assumptions C05_watch_nonstring_refuted.
 Print Assumptions C05_mini_get_read_only.
@@ -339,7 +341,8 @@ Print Assumptions C05_first_watch_decides.
 
 (* Executor level over the mini backend: WATCH k | LPUSH k b (a list modified in place) | MULTI SET j 1 EXEC
    -> nil (stored values of every type are compared); WATCH k | SET k b | WATCH k | MULTI SET j 1 EXEC ->
-   nil (the first snapshot decides); an empty transaction after a failed watch -> nil. *)
+   nil (the first snapshot counts); back to the first value after a second WATCH -> nil (every WATCH instant
+   counts); an empty transaction after a failed watch -> nil. *)
 Example C05_x_nonvacuous :
   let run (l : list (list string)) :=
     fold_left (fun p c => let '(x, _) := p in
@@ -350,6 +353,7 @@ Example C05_x_nonvacuous :
   snd (run [["LPUSH"; "k"; "a"]; ["WATCH"; "k"]; ["LPUSH"; "k"; "b"]; ["MULTI"]; ["SET"; "j"; "1"]; ["EXEC"]]) = RNilBulk /\
   snd (run [["SET"; "k"; "a"]; ["WATCH"; "k"]; ["SET"; "k"; "b"]; ["WATCH"; "k"]; ["MULTI"]; ["SET"; "j"; "1"]; ["EXEC"]]) = RNilBulk /\
   snd (run [["SET"; "k"; "a"]; ["WATCH"; "k"]; ["SET"; "k"; "b"]; ["MULTI"]; ["EXEC"]]) = RNilBulk /\
+  snd (run [["SET"; "k"; "a"]; ["WATCH"; "k"]; ["SET"; "k"; "b"]; ["WATCH"; "k"]; ["SET"; "k"; "a"]; ["MULTI"]; ["EXEC"]]) = RNilBulk /\
   snd (run [["SET"; "k"; "a"]; ["WATCH"; "k"]; ["GET"; "k"]; ["MULTI"]; ["INCR"; "k"]; ["SET"; "j"; "1"]; ["EXEC"]])
     = RArr [RError (str "ERR value is not an integer or out of range"); RSimple (str "OK")].
 Proof. exact x_nonvacuous_c05. Qed.
